@@ -17,7 +17,7 @@ use crate::obs::guard;
 pub static DEF: PropDef = PropDef {
     id: "C17",
     level: "exploration",
-    rule: "each case: one hostile header — element type in {Binary, Utf8, UnsignedInt, raw tag (unknown id, tolerated), master} x declared size in {0, 1, M-1, M, M+1, 2M, 2^20, 2^32, 4*10^9, 4*10^9+1, 2^40, 2^56-2, random} encoded in a random vint width that can hold it x position {root, inside a known-size master (with and without oversize tolerance), inside an unknown-size master} x payload {absent, a few bytes, complete when small} x size limit M in {0, 5, 4096, 64 KiB, 1 MiB, default 4*10^9 (declared sizes <= 64 MiB only)} x initial capacity {16, 4096, 65536} x all 8 tolerance subsets — parsed by the real iterator (next() until the first error/None, then one try_recover() and next()). Around every API call the counting allocator measures peak live-heap growth and the largest single request on that thread; both must stay <= 16*max(B, capacity) + 64 KiB where, while the probed element is being handled, B = its declared size if within the limit, else 0, and afterwards (elements found in the random payload) B = M; an element within the limit must not be rejected with the size error, an element declaring more than the limit must not be returned as an item nor reach its payload (the call must end in InvalidTagSize or an earlier check's error: InvalidTagId / HierarchyError / OversizedChildElement / InvalidTagData); no panic or arithmetic overflow (overflow checks are on). Every 20 000th case instead parses one long valid stream (6 MiB quick / 24 MiB thorough) of in-limit elements of varying size and measures the growth over the whole parse against the same bound (memory creep). distinct = (type, size class relative to M, width, position, limit, capacity, tolerance); non-trivial iff declared size > capacity.",
+    rule: "each case: one hostile header — element type in {Binary, Utf8, UnsignedInt, raw tag (unknown id, tolerated), master} x declared size in {0, 1, M-1, M, M+1, 2M, 2^20, 2^32, 4*10^9, 4*10^9+1, 2^40, 2^56-2, random} encoded in a random vint width that can hold it x position {root, inside a known-size master (with and without oversize tolerance), inside an unknown-size master} x payload {absent, a few bytes, complete when small} x size limit M in {0, 5, 4096, 64 KiB, 1 MiB, default 4*10^9 (declared sizes <= 64 MiB only)} x initial capacity {16, 4096, 65536} x all 8 tolerance subsets — parsed by the real iterator (next() until the first error/None, then one try_recover() and next()). Around every API call the counting allocator measures peak live-heap growth and the largest single request on that thread; both must stay <= 16*max(B, capacity) + 64 KiB where, while the probed element is being handled, B = its declared size if within the limit, else 0, and afterwards (elements found in the random payload) B = M; an element within the limit must not be rejected with the size error, an element declaring more than the limit must not be returned as an item nor reach its payload (the call must end in InvalidTagSize or an earlier check's error: InvalidTagId / HierarchyError / OversizedChildElement / InvalidTagData); no panic or arithmetic overflow (overflow checks are on). Every 20 000th case instead parses one long valid stream (6 MiB quick / 24 MiB thorough) of in-limit elements of varying size and measures the growth over the whole parse against the same bound (memory creep). In the thorough tier eight curated cases are additionally replayed in a child process under `valgrind --tool=massif`; the peak of mem_heap_B over a baseline run (same setup, no parse) must satisfy the same bound — an oracle that does not depend on the harness allocator (skipped and counted if valgrind is unavailable). distinct = (type, size class relative to M, width, position, limit, capacity, tolerance); non-trivial iff declared size > capacity.",
     assumptions: &["the constant 16 is deliberately loose (today's worst legitimate ratio is about 3: old buffer + grown buffer + the payload copy handed to the tag); the faults this property is about are off by 10^3-10^12", "with the limit removed (None) nothing is promised; not exercised", "default-limit acceptance is only exercised up to 64 MiB declared"],
     cases_quick: 800_000,
     cases_thorough: 8_000_000,
@@ -120,6 +120,11 @@ fn run_long_stream(c: &mut Case) {
 }
 
 fn run(c: &mut Case) {
+    if c.idx == 3 && c.tier == crate::runner::Tier::Thorough {
+        // independent second opinion on the allocator oracle: a handful of curated cases under valgrind massif
+        run_massif_stage(c);
+        return;
+    }
     if c.idx % 20_000 == 7 {
         run_long_stream(c);
         return;
@@ -346,5 +351,104 @@ fn run(c: &mut Case) {
     }
     if c.idx % 2501 == 17 {
         c.set_sample(wit("none (sample)", J::obj().set("first_error", J::s(first_err.map(|e| e.short()).unwrap_or("none".into())))));
+    }
+}
+
+
+// ------------------------------------------------------------------ valgrind massif cross-check (thorough tier)
+
+/// Curated cases replayed under `valgrind --tool=massif`: (name, limit, capacity, declared size, payload bytes present)
+pub const MASSIF_CASES: [(&str, Option<usize>, usize, u64, usize); 8] = [
+    ("within-limit-complete", Some(4096), 16, 4096, 4096),
+    ("over-limit-1MiB", Some(4096), 16, 1 << 20, 0),
+    ("over-limit-2^40", Some(4096), 4096, 1 << 40, 8),
+    ("within-1MiB-missing-payload", Some(1 << 20), 65536, 1 << 20, 100),
+    ("limit-0", Some(0), 16, 1, 1),
+    ("default-limit-over-4e9", None, 65536, 4_000_000_001, 16),
+    ("default-limit-32MiB-missing-payload", None, 4096, 32 << 20, 64),
+    ("within-64KiB-complete", Some(65536), 4096, 65536, 65536),
+];
+
+/// Body of `vmon c17-massif-case <k|baseline>`: builds the input, and (unless baseline) parses it once.
+pub fn massif_case_body(which: &str) {
+    let spec = c17_spec();
+    spec.install();
+    let k: Option<usize> = which.parse().ok();
+    let (_name, limit, capacity, declared, present) = MASSIF_CASES[k.unwrap_or(0).min(MASSIF_CASES.len() - 1)];
+    let mut bytes = id_bytes(M_ID);
+    bytes.extend(enc_unknown_size(8));
+    bytes.extend(id_bytes(CB_ID));
+    bytes.extend(enc_vint(declared, 8));
+    bytes.resize(bytes.len() + present, 0x5A);
+    let cfg = RCfg { allow: 0, buffered: vec![], capacity: Some(capacity), max_size: match limit { Some(m) => MaxSz::Set(Some(m)), None => MaxSz::Default }, eof_end: true };
+    let mut it = make_iter(&bytes[..], &cfg);
+    if k.is_none() {
+        // baseline: everything but the parse
+        std::hint::black_box(&mut it);
+        return;
+    }
+    let mut n = 0;
+    while let Some(r) = it.next() {
+        n += 1;
+        if r.is_err() || n > 16 {
+            break;
+        }
+    }
+    std::hint::black_box(n);
+}
+
+/// Peak `mem_heap_B` of a massif output file.
+fn massif_peak(path: &str) -> Option<u64> {
+    let txt = std::fs::read_to_string(path).ok()?;
+    txt.lines().filter_map(|l| l.strip_prefix("mem_heap_B=")).filter_map(|v| v.trim().parse::<u64>().ok()).max()
+}
+
+fn run_massif_stage(c: &mut Case) {
+    let exe = match std::env::current_exe() {
+        Ok(e) => e,
+        Err(_) => return,
+    };
+    let dir = format!("{}/harness/target/massif", std::env::var("VERIF_DIR").unwrap_or_else(|_| "/verif".into()));
+    let _ = std::fs::create_dir_all(&dir);
+    let run = |which: &str| -> Option<u64> {
+        let out = format!("{}/massif.{}.{}.out", dir, std::process::id(), which);
+        let st = std::process::Command::new("valgrind").args(["--tool=massif", "--time-unit=B", "--detailed-freq=1000000", "--max-snapshots=200", &format!("--massif-out-file={}", out)]).arg(&exe).args(["c17-massif-case", which]).output().ok()?;
+        if !st.status.success() {
+            let _ = std::fs::remove_file(&out);
+            return None;
+        }
+        let p = massif_peak(&out);
+        let _ = std::fs::remove_file(&out);
+        p
+    };
+    let base = match run("baseline") {
+        Some(b) => b,
+        None => {
+            c.count("massif_unavailable");
+            return;
+        }
+    };
+    for (k, (name, limit, capacity, declared, _present)) in MASSIF_CASES.iter().enumerate() {
+        let peak = match run(&k.to_string()) {
+            Some(p) => p,
+            None => {
+                c.count("massif_run_failed");
+                continue;
+            }
+        };
+        c.eval();
+        c.count("massif_cases_checked");
+        let m = limit.map(|x| x as u64).unwrap_or(4_000_000_000);
+        let b = if *declared <= m { *declared } else { 0 };
+        let bound = 16 * b.max(*capacity as u64) + SLACK;
+        let growth = peak.saturating_sub(base);
+        c.max("massif_growth_over_allowed_x1000", growth * 1000 / bound);
+        if growth > bound {
+            c.violation(
+                format!("C17/massif/{}", name),
+                format!("valgrind massif: heap peak grew by {} bytes over the baseline while parsing case '{}' (declared {}, limit {:?}, capacity {}); allowed {}", growth, name, declared, limit, capacity, bound),
+                J::obj().set("case", J::s(*name)).set("massif_peak_bytes", J::u(peak)).set("massif_baseline_bytes", J::u(base)).set("allowed_growth_bytes", J::u(bound)).set("reproduce", J::s(format!("valgrind --tool=massif vmon c17-massif-case {}", k))),
+            );
+        }
     }
 }
